@@ -74,4 +74,60 @@ example :
     simp [c18_src_http_updated, httpUpdated, Book.get, Book.put, Book.del, without, emit, Call.src, Active.apply,
       Out.quiet]
 
+/-! ## file_system -/
+
+/-- **`ruleSetDeleted` of the file_system provider is `fsDeleted`**: a file the provider never loaded causes no call; a
+loaded one is reported as deleted and forgotten only after the processor accepted. -/
+theorem c18_src_fs_deleted (rej : List σ) (st : St σ) (name : σ) :
+    fsDeletedSrc rej name (st, []) =
+      .done (if (fsDeleted rej st name).err then some FileState.invalid else none)
+        ((fsDeleted rej st name).st, (fsDeleted rej st name).calls) := by
+  unfold fsDeletedSrc Src.FileSystem.ruleSetDeleted fsDeleted
+  by_cases hr : name ∈ rej
+  all_goals
+    cases hb : st.book.get name <;>
+      simp [Go.bind, Go.pure, Go.map, Go.Res.map, Go.cond_app, hb, hr, Out.quiet, emit, processor, Call.src]
+
+/-- **`ruleSetCreatedOrUpdated` of the file_system provider is `fsCreatedOrUpdated`**, for every state, every state of
+the file (valid with any digest, empty, missing, unreadable) and every refusing processor: created for a file not
+loaded before (or remembered with the empty digest), updated only for a different digest, handed to `ruleSetDeleted`
+when the file is gone or empty, an error and no call for an unreadable file; the digest is remembered only after the
+processor accepted. -/
+theorem c18_src_fs_created_or_updated (rej : List σ) (st : St σ) (name : σ) (file : FileState) :
+    fsChangedSrc rej name file (st, []) =
+      .done (if (fsCreatedOrUpdated rej st name file).err then some FileState.invalid else none)
+        ((fsCreatedOrUpdated rej st name file).st, (fsCreatedOrUpdated rej st name file).calls) := by
+  cases file with
+  | missing =>
+    simp only [fsChangedSrc, Src.FileSystemChanged.ruleSetCreatedOrUpdated, fsCreatedOrUpdated, loadOf, Go.bind, Go.pure,
+      Option.isSome_some, cond_true, Option.any_some, Go.cond_app]
+    rw [show ((FileState.missing == FileState.empty) || (FileState.missing == FileState.missing)) = true from rfl]
+    simp only [cond_true, c18_src_fs_deleted]
+    rfl
+  | empty =>
+    simp only [fsChangedSrc, Src.FileSystemChanged.ruleSetCreatedOrUpdated, fsCreatedOrUpdated, loadOf, Go.bind, Go.pure,
+      Option.isSome_some, cond_true, Option.any_some, Go.cond_app]
+    rw [show ((FileState.empty == FileState.empty) || (FileState.empty == FileState.missing)) = true from rfl]
+    simp only [cond_true, c18_src_fs_deleted]
+    rfl
+  | invalid =>
+    simp only [fsChangedSrc, Src.FileSystemChanged.ruleSetCreatedOrUpdated, fsCreatedOrUpdated, loadOf, Go.bind, Go.pure,
+      Option.isSome_some, cond_true, Option.any_some, Go.cond_app]
+    rw [show ((FileState.invalid == FileState.empty) || (FileState.invalid == FileState.missing)) = false from rfl]
+    simp [Out.failed]
+  | valid h =>
+    unfold fsChangedSrc Src.FileSystemChanged.ruleSetCreatedOrUpdated fsCreatedOrUpdated
+    by_cases hr : name ∈ rej
+    all_goals
+      cases hb : st.book.get name with
+      | none =>
+        simp [Go.bind, Go.pure, Go.map, Go.Res.map, Go.cond_app, loadOf, digestLen, hb, hr, Out.quiet, emit, processor,
+          Call.src]
+      | some h' =>
+        have hbeq : (some h' == some h) = decide (h' = h) := by
+          by_cases he : h' = h <;> simp [he]
+        by_cases h0 : h' = 0 <;> by_cases he : h' = h <;>
+          simp [Go.bind, Go.pure, Go.map, Go.Res.map, Go.cond_app, loadOf, digestLen, hb, hr, h0, he, hbeq, Out.quiet, emit,
+            processor, Call.src] <;> simp_all
+
 end Heimdall.Props.C18
